@@ -35,6 +35,8 @@ type sweepScenario struct {
 	// MineDuringPay: blocks that arrive while the taker's claim-payment loop runs (at its second and third
 	// height query), so that an attempt can fail and the window can close inside the loop
 	MineDuringPay uint32
+	// RecoverFault: a boundary call that fails once while the crashed node recovers ("" none)
+	RecoverFault string
 	// ThroughCsv: once the peers are silent the chain advances past the csv and the watchers report it,
 	// all inside the run whose crash points are swept
 	ThroughCsv bool
@@ -51,7 +53,7 @@ type sweepSpec struct {
 }
 
 func (s sweepScenario) key() string {
-	return fmt.Sprintf("%s/%s/lnd=%v/%s:%s+%d/%d/silent@%d", s.Type, s.Chain, s.LND, s.FaultNode, s.FaultCall, s.FaultSkip, s.FaultKind, s.SilentAfter) + map[bool]string{true: "/csv", false: ""}[s.ThroughCsv] + fmt.Sprintf("/minepay%d", s.MineDuringPay)
+	return fmt.Sprintf("%s/%s/lnd=%v/%s:%s+%d/%d/silent@%d", s.Type, s.Chain, s.LND, s.FaultNode, s.FaultCall, s.FaultSkip, s.FaultKind, s.SilentAfter) + map[bool]string{true: "/csv", false: ""}[s.ThroughCsv] + fmt.Sprintf("/minepay%d", s.MineDuringPay) + "/rf=" + s.RecoverFault
 }
 
 var sweepFaultCalls = []string{"", "", "ln.ProbePayment", "ln.SpendableMsat", "ln.ReceivableMsat", "ln.DecodePayreq", "ln.GetPayreq", "msg.Send", "msg.Send", "store.UpdateData",
@@ -74,6 +76,9 @@ func genSweepScenario(t *rapid.T, spec sweepSpec) sweepScenario {
 	}
 	if len(spec.chains) > 0 {
 		s.Chain = rapid.SampledFrom(spec.chains).Draw(t, "swChainRestricted")
+	}
+	if rapid.IntRange(0, 2).Draw(t, "swRecoverFaultWanted") == 0 {
+		s.RecoverFault = rapid.SampledFrom(recoverFaultCalls).Draw(t, "swRecoverFault")
 	}
 	if spec.payMine {
 		// the first claim attempts fail cleanly while blocks arrive
@@ -131,6 +136,7 @@ func runSweepScenario(t *rapid.T, s sweepScenario, crashAt int, monitor func(*Hi
 		taker.MineOnHeightCall[s.Chain] = []uint32{0, 0, s.MineDuringPay / 2, s.MineDuringPay - s.MineDuringPay/2}
 	}
 	h.W.CrashAt = crashAt
+	h.recoverFault = s.RecoverFault
 	var err error
 	var sm *swap.SwapStateMachine
 	crashed := h.W.Step(h.A, func() {
